@@ -17,11 +17,13 @@ import datetime
 from lib import common, recog, dtpipe, dtcorpus, periodcorr
 from lib import durationcorr
 from lib import dtperiodcorr
+from lib import period2corr
 from lib.common import cps, uncps
 
 PROP = 'C10'
 LEVEL = 'proof'
-PROPS_MODULES = ['RTV.Props.C10', 'RTV.Props.C10Periods', 'RTV.Props.C10Durations', 'RTV.Props.C10DtPeriod']
+PROPS_MODULES = ['RTV.Props.C10', 'RTV.Props.C10Periods', 'RTV.Props.C10Durations', 'RTV.Props.C10DtPeriod',
+                 'RTV.Props.C10Periods2']
 GEN = ['chartables', 'durationmaps']
 REQUIRED_THEOREMS = ['duration_timex_reads_back', 'duration_value_matches_timex', 'luis_time_span_inverse',
                      'between_dates_consistent', 'between_times_consistent', 'unit_tables_consistent',
@@ -40,7 +42,11 @@ REQUIRED_THEOREMS = ['duration_timex_reads_back', 'duration_value_matches_timex'
                      'simple_cases_ok', 'simple_cases_reversed_rejected', 'merge_both_ok', 'merge_begin_date_ok',
                      'merge_begin_date_reversed_witness', 'date_period_ok', 'date_period_cross_midnight_rejected',
                      # … its repaired variants (findings/dtperiod/*.diff; the correspondence probes which one the tree follows)
-                     'variants_prefix', 'merge_begin_date_fixed_ok', 'merge_end_date_fixed_ok', 'date_period_fixed_ok']
+                     'variants_prefix', 'merge_begin_date_fixed_ok', 'merge_end_date_fixed_ok', 'date_period_fixed_ok',
+                     # Props/C10Periods2: DateContext, year-context merges, complex periods, parse order, decades, month/year durations
+                     'duration_past_exact', 'duration_next_exact', 'duration_in_exact', 'set_date_with_context_valid',
+                     'sync_year_valid', 'merge_year_context_ordered', 'first_success_spec', 'order_observable_witness',
+                     'complex_months_year_context', 'complex_witnesses', 'decade_unported_never_succeeds', 'decade_fixed_century']
 RULE = ('N in {1,2,3,7,30,365,1000,5000} (quick: 3 of them per spelling) × every spelling of every culture\'s duration '
         'unit_map; ordered pairs of absolute dates and of clock times in English; every range entity over the '
         'Python-supported DateTime Specs inputs of all cultures; non-trivial = distinct query that produced an entity of '
@@ -123,6 +129,7 @@ def correspond(ctx):
     # the range computations of BaseDatePeriodParser (RTV.Model.Periods, theorems in Props/C10Periods) against the real methods
     periodcorr.unit(ctx, n_refs=120)
     durationcorr.unit(ctx)   # BaseDurationParser (all paths) / BaseSetParser against RTV.Model.Durations, 8 cultures
+    period2corr.run(ctx)     # DateContext + the rest of BaseDatePeriodParser against RTV.Model.Periods2 (unit) + year-context pipeline oracles
     dtperiodcorr.run(ctx)    # BaseDateTimePeriodParser against RTV.Model.DtPeriod (unit) + triple oracle on its expression families
 
     # ------------------------------------------------------------- pipeline (a): N × spelling
